@@ -68,9 +68,9 @@ func register(c *Check) {
 // describe everything a check enumerates)
 var ruleExtra = map[string]string{
 	"C01": "the pipeline alphabet also holds a GET that its node answers with -MOVED and one answered with -ASK (followed transparently), so local replies, QUIT and redirects meet in every order; big batches at production buffer sizes: 1100 / 2100 requests completed behind a head request whose node answers last, released by ONE flush (more than the 1024 slices a vectored write takes), also to a slow reader, then two more requests; cold backend connections whose AUTH / READONLY replies arrive in pieces while requests are pending on them; exactly 1022..1025 / 2047 / 2048 requests for ONE node behind a stalled head; a slow client with more than 64 KiB parked, a partial drain, then further forwarded and local replies; replies that are EMPTY (empty bulk, empty array, null, array of one empty bulk) in every position of short pipelines; eight locally answered requests in one chunk to a slow reader; a whole write batch (2 / 3 / 5 requests) to one silent node times out: one timeout error per request, in order, then a further request is served",
-	"C02": "every command batch also PIPELINED (three requests per chunk, so each is decoded with further client bytes buffered behind it; multiset of request bytes at the nodes = multiset sent); production-size buffers: replies of 64 KiB and more parked for a slow reader (ring part + overflow list) while the request objects that carried them are recycled and reused by another client before the backlog drains; 1100 replies released by one flush followed by two more requests; a 3.5 KB request and a 3.5 KB reply in three and four segments at production buffer sizes",
+	"C02": "every command batch also PIPELINED (three requests per chunk, so each is decoded with further client bytes buffered behind it; multiset of request bytes at the nodes = multiset sent); production-size buffers: replies of 64 KiB and more parked for a slow reader (ring part + overflow list) while the request objects that carried them are recycled and reused by another client before the backlog drains; 1100 replies released by one flush followed by two more requests; a 3.5 KB request and a 3.5 KB reply in three and four segments at production buffer sizes; replies of minimal size: a status / error line with empty text (+CRLF, -CRLF), alone and nested in arrays, null array, nested empty array, one-letter status / error, each between ordinary requests to the same node (one chunk / one per request, coalesced backend reads or not)",
 	"C03": "the orphan fragment of a locally answered multi-key request / the late reply of a timed-out request is a -MOVED / -ASK redirect; replies of 64 KiB and more parked for a slow reader while their request objects are recycled by another client; a connection that died inside a message (node killed mid-reply, client gone mid-request) followed by a message of another connection that arrives cut; a client closed by the proxy (valid request + garbage in one segment) while its fragment is still waiting to be written, other clients then using the same node connection; a split MGET whose merged reply exceeds the size limit followed by further requests; a client that QUITs right behind its request while the node's reply arrives in the same read as replies for other clients",
-	"C04": "a replica re-parented to another master with nothing else changing, a master and its replica swapping roles (judged over all random outcomes: exactly the owning set serves); for every slot a brace-free key containing bytes >= 0x80; the REAL boot path (serve() + engine.start(): seed pools = all masters / one master / a master and a replica, password and preconnect on and off, replica reads off): every connection that carries a request has authenticated (and is READONLY on a replica) first, every request reaches the owning set",
+	"C04": "a replica re-parented to another master with nothing else changing, a master and its replica swapping roles (judged over all random outcomes: exactly the owning set serves); for every slot a brace-free key containing bytes >= 0x80; the REAL boot path (serve() + engine.start(): seed pools = all masters / one master / a master and a replica, password and preconnect on and off, replica reads off): every connection that carries a request has authenticated (and is READONLY on a replica) first, every request reaches the owning set; passwords made of bytes that mean something to a formatter or to the protocol (s3cr%t, 100%sure, 50%, %d%s%v, a space, CR LF, braces, a backslash) with replica reads: the handshake carries the configured password byte for byte",
 	"C05": "through the running proxy also the slot assigned to the key of SINGLE-key requests and scripts (GET, SET, EVAL; thorough: EVALSHA, HSET, EXPIRE): all 256 one-byte keys, keys with CR / LF / NUL / tab / quote / high bytes inside and inside the tag; MSET lists in the assigned-slot family; EVALSHA in the quick tier",
 	"C06": "sweeps over the numbers a fragment header carries: every key / value length 0..300 and around 512, 1000, 1024, 4096, 10000, 65536, 100000; every number of keys of one slot 1..130 and around 256, 500, 1000, 1024; split MSETs on their way to a node that reads slowly: more than 64 KiB parked, drained in pieces, further fragments queued meanwhile; multi-key requests over exactly 1023 / 1024 / 1025 / 2048 distinct slots of one node; several fragments for one slow node leaving in ONE vectored write that is accepted in part",
 	"C07": "two split requests pipelined on one connection (MGET/DEL/MSET pairs; the first needs a node the second does not, so the later one can complete first) under every arrival order within the bound; sweeps over the numbers of the merged reply: element counts 2..130 and around 256 / 1000 / 1024, value lengths 0..300 and around the powers of ten and two up to 65537; every fragment of the request answered with a redirect first (2, 6, 9 fragments: the keys' range has just moved); the split request is the FIRST request on node connections that start with a handshake (password and / or replica reads), handshake and fragment replies in one read (MGET, DEL, MSET); one or both fragments answered with an error line (C11's scenario and oracle: the merged reply is an error)",
@@ -83,10 +83,10 @@ var ruleExtra = map[string]string{
 	"C14": "the description under ALL 720 orders of its six lines (a replica listed before its master); small clusters: two masters + one replica, one master + two replicas, two live masters + failed third + replicas, four masters without replicas; the end-to-end path UNDER LOAD (every node connection has a client request in flight whenever the 1 s ticker fires); node flags nofailover / fail? (token-wise flag test); a master whose slot columns hold only an import marker; INFO probes through the proxy's REAL redis client (replies in 7-byte pieces on every second history); the REAL boot path: first adoption from one seed / a dead seed next to a live one / a replica as the only seed / all nodes as seeds; end-to-end with a 256-byte size limit",
 	"C15": "the lost connection starts with a handshake (password: lost before / after AUTH is answered, after the first request; password + replica connection); the node dies INSIDE a reply and the next reply arrives in pieces over a new connection; two connections per node; the lost connection still has unsent request bytes parked for a node that stopped reading; a client with a reply backlog is closed; a client with a pending request disconnects and only THEN the node connection is lost (or its redirect cannot be followed); the node is lost for good (connection closed or reset AND every later dial refused): later requests routed to it are answered with an error, requests to other nodes are served",
 	"C16": "the late reply of the timed-out request is -MOVED / -ASK / an error; the timed-out request (GET, split MGET, a GET that was redirected and stalls at the target) is followed by PING / unknown command / QUIT; the same while the proxy is busy (the clock passes the deadline without epoll_wait ever reporting 'no events'); two connections per node; a whole write batch (2 / 4 requests) to a silent node; a client that disconnects (FIN / RST) before the deadline with another client's request queued behind its request: that client gets its timeout error and a further reply; slow redirect hops (as C13)",
-	"C17": "argument counts far from the legal ones for every documented name (16..514, thorough ..1025: around the powers of two where a narrow counter wraps, and the legal count + 65536 for six commands); production-size limit (6 MiB): arguments of 1 MiB, 1 MiB + 1, 1.5 MiB are served, a request one byte over the limit gets the too-large error and the connection stays usable; every reply shape (bulk, error line, status line, array) at L-1, L, L+1, 3L as the reply to a single-key request and to one fragment of a split MGET / DEL / MSET; AUTH (40 arguments spread over all slots) and PING on a topology with an unowned range, with and without a configured password",
-	"C18": "seven further file contents as states (duplicate lines, more lines than distinct addresses, the foreign address and 127.0.0.10 listed, reversed order); six probing clients incl. 127.0.0.10 and 27.0.0.1 (a listed address is a proper prefix / suffix of theirs); in histories of two and more contents the probing clients connect before the last change as well (judged by the content in force then) and again after it; file contents in which a key is ABSENT (enable only, list only, empty file, comment only); the harness keeps one watcher object across reloads, as LoopIPWhiteList does",
+	"C17": "argument counts far from the legal ones for every documented name (16..514, thorough ..1025: around the powers of two where a narrow counter wraps, and the legal count + 65536 for six commands); production-size limit (6 MiB): arguments of 1 MiB, 1 MiB + 1, 1.5 MiB are served, a request one byte over the limit gets the too-large error and the connection stays usable; every reply shape (bulk, error line, status line, array) at L-1, L, L+1, 3L as the reply to a single-key request and to one fragment of a split MGET / DEL / MSET; AUTH (40 arguments spread over all slots) and PING on a topology with an unowned range, with and without a configured password; the limit as CONFIGURED, through the real core.Run (option defaulting included): limits 40 / 64 / 200 / 1000 / 1023 / 1024 / 1025 / 5000 bytes and not configured (6 MiB): a SET of exactly the limit is served, one a byte longer is answered with the too-large error and never forwarded, the connection stays usable",
+	"C18": "seven further file contents as states (duplicate lines, more lines than distinct addresses, the foreign address and 127.0.0.10 listed, reversed order); six probing clients incl. 127.0.0.10 and 27.0.0.1 (a listed address is a proper prefix / suffix of theirs); in histories of two and more contents the probing clients connect before the last change as well (judged by the content in force then) and again after it; file contents in which a key is ABSENT (enable only, list only, empty file, comment only); the harness keeps one watcher object across reloads, as LoopIPWhiteList does; the real fsnotify watcher run also contains reloads that FAIL between two edits (text that is not YAML; the file moved away and a new one moved into place a moment later): the admitted set equals the final file all the same",
 	"C19": "replies of 64 KiB and more to a slow reader at production sizes (ring part + overflow list) while request objects are recycled; buffers released by a connection that died inside a message are clean when the next connection uses them; 14 x 1000-byte and 8 x 2500-byte replies to a slow reader (the ring grows step by step while wrapped); 5 x 40000-byte fragments to a slow node; more than 64 KiB parked for a slow client, a partial drain, then more replies; eight local replies to a slow reader (conn.write path); a request cut after 1..7 bytes (inside the array-header line / the first bulk-header line), the rest arriving after the proxy has read the first piece (GET, MGET, SET); an incomplete request of more than 32 MiB whose client hangs up",
-	"C20": "reads interleaved with other traffic in a fixed period (a write, a PING, a read of another master's slot; periods 2..5, 2 and 3 replicas): over all random outcomes every healthy replica serves some read; a master and its replica swap roles (pools whose role flips keep serving); node descriptions that list replicas before their masters; a replica that leaves the description for one update (flagged fail? / absent) and returns at the same address",
+	"C20": "reads interleaved with other traffic in a fixed period (a write, a PING, a read of another master's slot; periods 2..5, 2 and 3 replicas): over all random outcomes every healthy replica serves some read; a master and its replica swap roles (pools whose role flips keep serving); node descriptions that list replicas before their masters; a replica that leaves the description for one update (flagged fail? / absent) and returns at the same address; every second scenario runs against nodes that describe themselves as Redis 7 (INFO carries async_loading:0 after loading:0)",
 }
 
 // ---------------------------------------------------------------------------------------------
